@@ -4,7 +4,7 @@ C01 part B2 — part 3: one axis of the result of `combine_legs` (`AxS`): either
 or a spectator axis `x`. Per-axis facts: where the image index is located (`AxS.place`), disjointness of the
 sub-slices (`AxS.disjoint`), the within-block position as a C-order index (`AxS.win_eq`, `AxS.shp_eq`).
 -/
-namespace TenpyModel.C01B2
+namespace TenpyModel.C01B2.Comb
 open TenpyModel.Core TenpyModel.C01B
 
 /-- one axis of the result: the pipe `p` over the source axes `c`, or the source axis `x` -/
@@ -206,4 +206,4 @@ theorem AxS.win_eq (lcs : List Leg) (idx : List Nat) (hil : idx.length = lcs.len
     rw [wOf_getD lcs idx x hx hil]
     rfl
 
-end TenpyModel.C01B2
+end TenpyModel.C01B2.Comb
